@@ -1463,6 +1463,10 @@ class Interp:
                 raise PyRaise(TypeError("%s does not support item assignment" % obj.cls.__name__))
             return
         if isinstance(idx, SV):
+            # a concrete dict keyed by one symbolic name: exact as long as no other key could alias it
+            if isinstance(obj, dict) and idx.k == "name" and all(isinstance(k, SV) and k.t.eq(idx.t) for k in obj):
+                obj[idx] = v
+                return
             raise Unsupported("store at symbolic index into %s" % type(obj).__name__)
         if is_symbolic(v) and not isinstance(obj, (list, dict)):
             raise Unsupported("store of symbolic value into %s" % type(obj).__name__)
